@@ -7,6 +7,10 @@
    template.Registry / template.MethodScope (drivers/alloc, linked against the working tree); the recorded
    replies are validated by TLC against spec/AllocContract.tla (AllocTrace.tla).  The verdict is contract
    acceptance only: a refactor that picks different-but-fresh names passes; Impl disagreement is drift.
+   Alphabets: names/prefixes/packages (quick), source package, non-ASCII, path order, import-path look-alikes
+   (vendored form, "/"-suffix, internal/, /v2, go-foo, foo.v1; the contract is keyed by the path the registry
+   REPORTS), and histories over the real MethodScope.AddVar / ResolveVariableNameCollisions (go/types variables
+   built by the driver) where a variable's name is registered by somebody else only after the variable was added.
 3. Long simulated histories (TLC -simulate) are executed by probe templates *through the mockery binary*
    starting from the scope mockery produced for a real method, and validated the same way.
 """
@@ -115,7 +119,11 @@ def run(ctx):
     # fourth / fifth alphabet: non-ASCII identifiers (as QxxQ tokens), and import paths whose byte-wise order
     # differs from their element-wise order ('-' and '.' sort below '/')
     tier = "thorough" if thorough else "quick"
-    for nm, least in (("uni", 50), ("paths", 50)):
+    # sixth alphabet ("look"): import-path look-alikes (vendored form of another path, "/"-suffix / prefix, internal/,
+    # trailing /v2, go-foo / foo.v1) with coinciding package names; seventh ("vars"): histories over the real
+    # MethodScope.AddVar / ResolveVariableNameCollisions interleaved with AddName / AllocateName / imports, where a
+    # variable's name becomes visible as a qualifier / type name / reservation only AFTER the variable was added
+    for nm, least in (("uni", 50), ("paths", 50), ("look", 50), ("vars", 500)):
         rx = ctx.tlc("AllocMC", f"Alloc_{nm}_{tier}.cfg", workers=1, timeout=3000)
         if rx.violated:
             ctx.note(f"model-level: {rx.violated} violated on Alloc/{nm} (prediction only)")
@@ -124,6 +132,44 @@ def run(ctx):
         cx = [dict(c, dst="x/io", srcpath="", srcname="") for c in rx.prints("CASE")]
         if len(cx) < least:
             raise MachineryError(f"too few exported histories for the {nm} alphabet ({len(cx)}): vacuous")
+        if nm == "vars":
+            def late(c):
+                """a resolve after two AddVars where the earlier variable is named like the qualifier / type name the
+                later one registered, or like a name added / allocated after it"""
+                ops = c["ops"]
+                for i, o in enumerate(ops):
+                    if o["op"] != "resolve":
+                        continue
+                    for ai, a in enumerate(ops[:i]):
+                        if a["op"] == "addvar" and any(
+                                (b["op"] == "addvar" and a["name"] in (b["q"], b["tstr"])) or
+                                (b["op"] == "add" and b["name"] == a["name"]) or
+                                (b["op"] == "alloc" and b["res"] == a["name"]) for b in ops[ai + 1:i]):
+                            return True
+                return False
+            n_late = sum(1 for c in cx if late(c))
+            if n_late < 20:
+                raise MachineryError(f"vacuous: only {n_late} variable histories with a name registered after the variable")
+            ctx.cov["model_histories_name_registered_after_variable"] = n_late
+            if True:
+                # every history with a ResolveVariableNameCollisions, a sample of the others (quick: 1500 + 300;
+                # thorough: 30000 + 3000 -- the replay holds all cases in memory)
+                keep = [c for c in cx if any(o["op"] == "resolve" for o in c["ops"])]
+                rest_av = [c for c in cx if not any(o["op"] == "resolve" for o in c["ops"]) and any(o["op"] == "addvar" for o in c["ops"])]
+                rest = [c for c in cx if not any(o["op"] in ("resolve", "addvar") for o in c["ops"])]
+                keep += ctx.rng.sample(rest_av, min(30000 if thorough else 1500, len(rest_av))) + ctx.rng.sample(rest, min(3000 if thorough else 300, len(rest)))
+                cx = keep
+        if nm == "look":
+            def both(c):
+                ps = {o["path"] for o in c["ops"] if o["op"] == "import"}
+                return any("/vendor/" in p and p.split("/vendor/", 1)[1] in ps for p in ps)
+            if not any(both(c) and any(o["op"] in ("imports", "qual") for o in c["ops"]) for c in cx):
+                raise MachineryError("vacuous: no look-alike history imports a vendored path and its plain form and then lists / queries")
+            if True:
+                # every history with two imports (look-alike pairs), a sample of the others (quick 1000, thorough 10000)
+                two = [c for c in cx if sum(1 for o in c["ops"] if o["op"] == "import") >= 2]
+                one = [c for c in cx if sum(1 for o in c["ops"] if o["op"] == "import") < 2]
+                cx = two + ctx.rng.sample(one, min(10000 if thorough else 1000, len(one)))
         cases += cx
     # third alphabet, deep: one prefix allocated ~30 times, 13 same-named packages (suffix / alias index >= 10)
     rd = ctx.tlc("AllocMC", "Alloc_deep_sim.cfg", workers=1, simulate="num=%d" % (120 if thorough else 40), depth=31,
@@ -145,7 +191,7 @@ def run(ctx):
         raise MachineryError(f"too few exported histories ({len(cases)}): vacuous")
     # coverage / vacuity: every op kind must occur in the exported histories
     kinds = {o["op"] for c in cases for o in c["ops"]}
-    need = {"add", "exists", "suggest", "alloc", "import", "imports", "qual", "newscope"}
+    need = {"add", "exists", "suggest", "alloc", "import", "imports", "qual", "newscope", "addvar", "resolve"}
     if not need <= kinds:
         raise MachineryError(f"vacuous: ops never taken {need - kinds}")
     collisions = sum(1 for c in cases for o in c["ops"] if o["op"] in ("alloc", "suggest") and o["res"] != o["prefix"])
@@ -156,16 +202,16 @@ def run(ctx):
     # ---------------------------------------------------------------- 2. replay on the real objects
     drv = ctx.build_driver("alloc")
     prefixes = {o["prefix"] for c in cases for o in c["ops"] if "prefix" in o}
-    names = {o["name"] for c in cases for o in c["ops"] if o["op"] in ("add", "exists")}
+    names = {o["name"] for c in cases for o in c["ops"] if o["op"] in ("add", "exists", "addvar")}
     pkgnames = {o["name"] for c in cases for o in c["ops"] if o["op"] == "import"}
     uni = universe(prefixes, names, pkgnames, upto=40)
     d = ctx.mkdir("replay")
     inp = {"universe": uni, "cases": [{"inpkg": c["inpkg"], "dst": c["dst"], "srcpath": c["srcpath"], "srcname": c["srcname"],
-                                        "ops": [{k: v for k, v in o.items() if k in ("op", "name", "prefix", "path")}
+                                        "ops": [{k: v for k, v in o.items() if k in ("op", "name", "prefix", "path", "pname")}
                                                 for o in c["ops"]]} for c in cases]}
     (d / "cases.json").write_text(unasc(json.dumps(inp)), encoding="utf-8")
     import subprocess
-    p = subprocess.run([str(drv), str(d / "cases.json"), str(d / "trace.ndjson")], capture_output=True, text=True, timeout=600)
+    p = subprocess.run([str(drv), str(d / "cases.json"), str(d / "trace.ndjson")], capture_output=True, text=True, timeout=1800 if thorough else 600)
     if p.returncode != 0:
         raise MachineryError("alloc driver died: " + p.stderr[-500:])
     events = [json.loads(asc(x)) for x in (d / "trace.ndjson").read_text(encoding="utf-8").splitlines()]
@@ -183,7 +229,8 @@ def run(ctx):
             drift += 1
             if drift <= 3:
                 ctx.note(f"drift (code differs from Alloc.tla Impl, contract decides): {json.dumps(dd)}")
-    allpaths = sorted({o["path"] for c in cases for o in c["ops"] if "path" in o} | set(PATHS))
+    allpaths = sorted(({o["path"] for c in cases for o in c["ops"] if "path" in o} | set(PATHS) |
+                       {e["rpath"] for e in events if "rpath" in e} | {p for e in events for p in e.get("paths", [])}) - {""})
     mc1 = ("---- MODULE AllocTraceMC1 ----\nEXTENDS AllocTrace\nMCPathOrder == <<" +
            ", ".join(json.dumps(p) for p in allpaths) + ">>\n====\n")
     n_ok, rej = validate(ctx, events, mc_module="AllocTraceMC1", files={"AllocTraceMC1.tla": mc1},
@@ -231,7 +278,9 @@ def run(ctx):
     ctx.cov["model_histories_with_aliased_import"] = aliased
     ctx.cov["impl_drift_cases"] = drift
     ctx.assumptions += ["TLC explores all histories up to MaxHist over the small alphabets of spec/AllocMC.tla (small-scope)",
-                        "names outside the probed universe are treated as not visible (cannot cause a false alarm)"]
+                        "names outside the probed universe are treated as not visible (cannot cause a false alarm)",
+                        "AddVar histories use variables of type string or of a named struct type T of a package; the exported-name "
+                        "uniqueness loop of ResolveVariableNameCollisions is exercised by the probe-template signatures only"]
     return {"level": "model_checking", "exhaustive": False}
 
 
@@ -261,7 +310,10 @@ def run_probe_templates(ctx, hists):
             "M(url int, Url yio.T, URL xio.T, io0 zio.T)",
             "M(a int, a1 int, a2 xio.T, io yio.T) (io1 zio.T)",
             "M(g\u00f6 xio.T, \u043a yio.T, na\u00efve string) (g\u00f61 zio.T)",
-            "M(c xio.T, rp yio.T, c0 string) (rp0 zio.T)"]
+            "M(c xio.T, rp yio.T, c0 string) (rp0 zio.T)",
+            # the name first, the colliding qualifier only later (imported by a later parameter / result)
+            "M(io string, a xio.T) (io0 int)",
+            "M(c int, io1 string) (io yio.T, io0 xio.T, err error)"]
     for i in range(len(hists)):
         src.append(f"type I{i} interface {{ {SIGS[i % len(SIGS)]} }}")
         if any(o["op"] == "suggest" for o in hists[i]["ops"]):
@@ -299,7 +351,7 @@ def run_probe_templates(ctx, hists):
                     t.append('{"op":"alloc","case":%d,"prefix":%s,"res":{{ printf "%%q" ($s.AllocateName %s) }}}' % (i, tq(o["prefix"]), tq(o["prefix"])))
                 elif op == "import":
                     path = f"{mod}/{o['path']}"
-                    t.append('{{- $p := $.Registry.AddImport %s %s }}\n{"op":"import","case":%d,"name":%s,"path":%s,"nil":{{ if $p }}false{{ else }}true{{ end }},"res":{{ if $p }}{{ printf "%%q" $p.Qualifier }}{{ else }}""{{ end }}}'
+                    t.append('{{- $p := $.Registry.AddImport %s %s }}\n{"op":"import","case":%d,"name":%s,"path":%s,"rpath":{{ if $p }}{{ printf "%%q" $p.Path }}{{ else }}""{{ end }},"nil":{{ if $p }}false{{ else }}true{{ end }},"res":{{ if $p }}{{ printf "%%q" $p.Qualifier }}{{ else }}""{{ end }}}'
                              % (tq(o["name"]), tq(path), i, tq(o["name"]), tq(path)))
                 elif op == "imports":
                     t.append('{"op":"imports","case":%d,"paths":[{{ range $.Imports }}{{ printf "%%q" .Path }},{{ end }}""],"quals":[{{ range $.Imports }}{{ printf "%%q" .Qualifier }},{{ end }}""]}' % i)
@@ -367,7 +419,7 @@ def run_probe_templates(ctx, hists):
                         continue
                     if j >= len(er) or er[j]["op"] != e["op"]:
                         raise MachineryError(f"probe outputs I{i}/J{i} do not line up at {e}")
-                    for k in ("res", "quals", "visible", "found", "nil"):
+                    for k in ("res", "quals", "visible", "found", "nil", "rpath"):
                         if k in er[j]:
                             e[k + "_erased"] = er[j][k]
                     j += 1
